@@ -110,6 +110,74 @@ theorem objFreePairs_mem (kvs : List (V × V)) (h : objFreePairs kvs = true) :
     · exact ⟨h.1.1, h.1.2⟩
     · exact ih h.2 p hp
 
+theorem decided_guardR {α : Type} (g : R Unit) (r : R α) (hg : Decided g) (hr : Decided r) : Decided (guardR g r) := by
+  cases g with
+  | ok u => simpa [guardR] using hr
+  | error e => simpa [guardR, Decided] using hg
+
+mutual
+theorem decided_ignoreV : ∀ (v : V), objFree v = true → Decided (ignoreV v)
+  | .undefined, _ => by simp [ignoreV, Decided]
+  | .none, _ => by simp [ignoreV, Decided]
+  | .bool _, _ => by simp [ignoreV, Decided]
+  | .int _ _, _ => by simp [ignoreV, Decided]
+  | .f64 _, _ => by simp [ignoreV, Decided]
+  | .str _ _, _ => by simp [ignoreV, Decided]
+  | .bytes _, _ => by simp [ignoreV, Decided]
+  | .invalid, _ => by simp [ignoreV, Decided]
+  | .obj _, h => by simp [objFree] at h
+  | .seq _ xs, h => by
+    simp only [objFree] at h
+    simp only [ignoreV]
+    exact decided_ignoreList xs h
+  | .map kvs, h => by
+    simp only [objFree] at h
+    simp only [ignoreV]
+    exact decided_ignorePairs kvs h
+theorem decided_ignoreList : ∀ (xs : List V), objFreeList xs = true → Decided (ignoreList xs)
+  | [], _ => by simp [ignoreList, Decided]
+  | x :: xs, h => by
+    simp only [objFreeList, Bool.and_eq_true] at h
+    simp only [ignoreList]
+    have hx := decided_ignoreV x h.1
+    cases hi : ignoreV x with
+    | ok u => exact decided_ignoreList xs h.2
+    | error e => rw [hi] at hx; simpa [Decided] using hx
+theorem decided_ignorePairs : ∀ (kvs : List (V × V)), objFreePairs kvs = true → Decided (ignorePairs kvs)
+  | [], _ => by simp [ignorePairs, Decided]
+  | (k, v) :: rest, h => by
+    simp only [objFreePairs, Bool.and_eq_true] at h
+    simp only [ignorePairs]
+    have hk := decided_ignoreV k h.1.1
+    have hv := decided_ignoreV v h.1.2
+    cases hi : ignoreV k with
+    | error e => rw [hi] at hk; simpa [Decided] using hk
+    | ok u =>
+      cases hj : ignoreV v with
+      | error e => rw [hj] at hv; simpa [Decided] using hv
+      | ok u' => exact decided_ignorePairs rest h.2
+end
+
+theorem decided_ignoredOK (names : List Str) : ∀ (kvs : List (V × V)), objFreePairs kvs = true → Decided (ignoredOK names kvs)
+  | [], _ => by simp [ignoredOK, Decided]
+  | (k, v) :: rest, h => by
+    simp only [objFreePairs, Bool.and_eq_true] at h
+    have ih := decided_ignoredOK names rest h.2
+    cases k <;> simp only [ignoredOK] <;> try exact ih
+    split
+    · exact ih
+    · exact decided_guardR _ _ (decided_ignoreV v h.1.2) ih
+
+theorem decided_ignoredSlots : ∀ (slots : List (Option Nat × V)), (∀ p ∈ slots, objFree p.2 = true) → Decided (ignoredSlots slots)
+  | [], _ => by simp [ignoredSlots, Decided]
+  | (some i, v) :: rest, h => by
+    simp only [ignoredSlots]
+    exact decided_ignoredSlots rest (fun p hp => h p (by simp [hp]))
+  | (none, v) :: rest, h => by
+    simp only [ignoredSlots]
+    exact decided_guardR _ _ (decided_ignoreV v (h (none, v) (by simp)))
+      (decided_ignoredSlots rest (fun p hp => h p (by simp [hp])))
+
 theorem decided_deByte (v : V) (h : objFree v = true) : Decided (deByte v) := by
   cases v <;> simp [deByte, Decided, objFree] at h ⊢
   split <;> simp
@@ -326,13 +394,15 @@ theorem decided_deSlots : ∀ (ss : List Shape) (names : List Str) (j : Nat) (sl
       · exact decided_err
 theorem decided_structMap : ∀ (ss : List Shape) (names : List Str) (kvs : List (V × V)),
     valueFreeList ss = true → objFreePairs kvs = true →
-    Decided (if allStrKeys kvs = true then mapOk D.list (deFields names ss kvs)
+    Decided (if allStrKeys kvs = true then guardR (ignoredOK names kvs) (mapOk D.list (deFields names ss kvs))
       else match resolveKeys names kvs with
         | .error e => .error e
-        | .ok slots => if dupSlots slots = true then .error .err else mapOk D.list (deSlots names ss 0 slots))
+        | .ok slots =>
+          if dupSlots slots = true then .error .err
+          else guardR (ignoredSlots slots) (mapOk D.list (deSlots names ss 0 slots)))
   | ss, names, kvs, hs, hk => by
     split
-    · exact decided_mapOk _ _ (decided_deFields ss names kvs hs hk)
+    · exact decided_guardR _ _ (decided_ignoredOK names kvs hk) (decided_mapOk _ _ (decided_deFields ss names kvs hs hk))
     · obtain ⟨hd, hsl⟩ := resolveKeys_spec names kvs hk
       split
       · rename_i e he
@@ -341,7 +411,8 @@ theorem decided_structMap : ∀ (ss : List Shape) (names : List Str) (kvs : List
       · rename_i slots hr
         split
         · exact decided_err
-        · exact decided_mapOk _ _ (decided_deSlots ss names 0 slots hs (hsl slots hr))
+        · exact decided_guardR _ _ (decided_ignoredSlots slots (hsl slots hr))
+            (decided_mapOk _ _ (decided_deSlots ss names 0 slots hs (hsl slots hr)))
 theorem decided_deVs : ∀ (vs : List VShape), valueFreeVs vs = true → ∀ (payload : Option V),
     (∀ x, payload = some x → objFree x = true) → ∀ w ∈ vs, Decided (deV w payload)
   | [], _, _, _, w, hw => by simp at hw
